@@ -527,9 +527,10 @@ impl<'a> Binder<'a> {
                     rows.push(exprs?);
                 }
 
-                // Infer each column's type from the first row that gives it
-                // one: a NULL literal in the first row says nothing about
-                // the column.
+                // Each column has the common type of its non-NULL cells
+                // (`VALUES (1), (1.5)` is a DOUBLE column, not 1 and 1): a
+                // NULL literal says nothing about the column. Cells with no
+                // common type known here are cast to the first one.
                 let schema = if let Some(first_row) = rows.first() {
                     let fields: Vec<SchemaField> = first_row
                         .iter()
@@ -539,7 +540,8 @@ impl<'a> Binder<'a> {
                                 .iter()
                                 .filter_map(|r| r.get(i))
                                 .filter_map(|x| x.data_type(&PlanSchema::empty()).ok())
-                                .find(|t| !matches!(t, ArrowDataType::Null))
+                                .filter(|t| !matches!(t, ArrowDataType::Null))
+                                .reduce(|acc, t| Self::union_common_type(&acc, &t).unwrap_or(acc))
                                 .unwrap_or_else(|| {
                                     e.data_type(&PlanSchema::empty())
                                         .unwrap_or(ArrowDataType::Utf8)
